@@ -212,14 +212,18 @@ def gen_posix(rng, k3_domain=False):
     saving = rng.choice([1800, 3600, 3600, 3600, 7200])
     std = rng.choice(['EST', 'CET', 'AEST', 'NST', 'AAA', 'WET', 'XYZST'])
     dst = rng.choice(['EDT', 'CEST', 'AEDT', 'NDT', 'BBB', 'WEST', 'XYZDT'])
-    times = [0, 3600, 7200, 7200, 7200, 10800, 60, 7261, 9000, 82800]
+    times = [0, 3600, 7200, 7200, 7200, 10800, 60, 7261, 9015, 11159, 9000, 82800]
     stime = rng.choice(times)
     etime = rng.choice(times + ([86400] if k3_domain else []))
     if not k3_domain:
         # keep the end's standard-time-of-day inside [0, 24h): etime - saving >= 0
         if etime - saving < 0:
             etime = saving + rng.choice([0, 3600])
-    return PZ.PosixZone(std, stdoff, dst, stdoff + saving, rule(a_month), stime, rule(b_month), etime)
+    end_rule = rule(b_month)
+    if k3_domain == 'force':
+        end_rule = ('M', b_month, rng.randint(1, 5), rng.randint(0, 6))
+        etime = rng.choice([0, 0, saving - 1800, 86400 + saving] if saving > 1800 else [0, 86400 + saving])
+    return PZ.PosixZone(std, stdoff, dst, stdoff + saving, rule(a_month), stime, end_rule, etime)
 
 
 def subminute(z):
